@@ -147,7 +147,7 @@ fn lower_attributes(list: Option<cst::AttributeList>) -> Vec<ast::Attribute> {
                 let syntax = attr.syntax();
                 ast::Attribute {
                     ast: MySyntaxNodePtr::new(syntax),
-                    text: syntax.text().to_string(),
+                    text: text_without_trailing_trivia(syntax),
                 }
             })
             .collect()
